@@ -103,9 +103,63 @@ def sub_dt(dt, pos):
     return dt
 
 
-def build_dt(tree, fmts, units=None):
+def variant_dt(tree, cls, pos=()):
+    """the datatype of the tree, built with the convenience classes of frappy.datatypes where the case names one for a
+    position (`cls`): TextType for a string, LimitsType for a tuple of two equal numeric members, StatusType for a tuple
+    (enum, string) - values, exported forms and text forms of these are those of their base classes (the model's)"""
+    from frappy.datatypes import ArrayOf, TupleOf, StructOf, TextType, LimitsType, StatusType
+    from frappy.lib.enum import Enum
+    t = tree['t']
+    c = cls.get(pos_key(pos))
+    if t == 'string' and c == 'text':
+        return TextType(tree['max'])
+    if t == 'tuple' and c == 'limits':
+        return LimitsType(variant_dt(tree['elems'][0], cls, pos + (0,)))
+    if t == 'tuple' and c == 'status':
+        return StatusType(Enum('Status', **{k: v for k, v in tree['elems'][0]['members']}))
+    if t == 'array':
+        return ArrayOf(variant_dt(tree['elem'], cls, pos + (0,)), tree['min'], tree['max'])
+    if t == 'tuple':
+        return TupleOf(*[variant_dt(e, cls, pos + (i,)) for i, e in enumerate(tree['elems'])])
+    if t == 'struct':
+        dt = StructOf(optional=list(tree['optional']), **{k: variant_dt(m, cls, pos + (i,)) for i, (k, m) in enumerate(tree['members'])})
+        if tree.get('client'):
+            dt.client = True
+        return dt
+    return dtcodec.tree_to_dt(tree)
+
+
+def gen_variants(rng, tree, pos=()):
+    """positions of the tree where a convenience class of frappy.datatypes fits, each taken with probability 1/2"""
+    t = tree['t']
+    out = {}
+    if t == 'string' and tree['min'] == 0 and not tree['utf8']:
+        if rng.random() < 0.5:
+            out[pos_key(pos)] = 'text'
+    elif t == 'tuple':
+        es = tree['elems']
+        if len(es) == 2 and es[0] == es[1] and es[0]['t'] in ('double', 'int', 'scaled') and rng.random() < 0.5:
+            out[pos_key(pos)] = 'limits'
+            out.update(gen_variants(rng, es[0], pos + (0,)))
+        elif len(es) == 2 and es[0]['t'] == 'enum' and es[1] == {'t': 'string', 'min': 0, 'max': gen.UNLIMITED, 'utf8': False} \
+                and all(n.isidentifier() for n, _ in es[0]['members']) and rng.random() < 0.5:
+            out[pos_key(pos)] = 'status'
+        else:
+            for i, e in enumerate(es):
+                out.update(gen_variants(rng, e, pos + (i,)))
+    elif t == 'array':
+        out.update(gen_variants(rng, tree['elem'], pos + (0,)))
+    elif t == 'struct':
+        for i, (_, m) in enumerate(tree['members']):
+            out.update(gen_variants(rng, m, pos + (i,)))
+    return out
+
+
+def build_dt(tree, fmts, units=None, cls=None):
     """real datatype from the tree, with the format strings (and units) of the case set on its float leaves"""
-    dt = dtcodec.tree_to_dt(tree)
+    dt = variant_dt(tree, cls) if cls else dtcodec.tree_to_dt(tree)
+    if cls and dt.export_datatype() != dtcodec.tree_to_dt(tree).export_datatype():
+        raise RuntimeError('variant classes changed the description: %r' % (cls,))
     for pos, leaf in leaf_paths(tree):
         f = fmts.get(pos_key(pos))
         if f and leaf['t'] in ('double', 'scaled'):
@@ -352,10 +406,10 @@ def _reject_constant(name):
     raise ValueError('non-strict JSON constant ' + name)
 
 
-def run_impl(tree, fmts, v, units=None):
+def run_impl(tree, fmts, v, units=None, cls=None):
     """every call of one case; returns (impl outcomes, fmt table, library test failures)"""
     from frappy.protocol.interface import encode_msg_frame, decode_msg
-    dt = build_dt(tree, fmts, units)
+    dt = build_dt(tree, fmts, units, cls)
     impl = dict.fromkeys(KEYS)
     libfail = []
     stats = {}
@@ -540,7 +594,7 @@ LAST_STATS = {}
 
 def eval_case(case):
     v = dtcodec.json_to_py(case['v'])
-    impl, table, libfail, stats = run_impl(case['tree'], case.get('fmts', {}), v, case.get('units'))
+    impl, table, libfail, stats = run_impl(case['tree'], case.get('fmts', {}), v, case.get('units'), case.get('cls'))
     LAST_STATS.clear()
     LAST_STATS.update(stats)
     req = {'p': 'C02', 'k': 'case', 'dt': case['tree'], 'v': case['v'], 'fmt': table, 'impl': impl}
@@ -986,6 +1040,12 @@ def catalogue_trees():
         {'t': 'struct', 'members': [['a', en], ['b', bl]], 'optional': ['a', 'b'], 'client': False},
         {'t': 'array', 'elem': en, 'min': 0, 'max': 4},
         {'t': 'tuple', 'elems': [db, st, bl]},
+        # shapes of the convenience classes LimitsType / StatusType / TextType (taken for half of the cases: `gen_variants`)
+        {'t': 'tuple', 'elems': [db, db]}, {'t': 'tuple', 'elems': [sc, sc]}, {'t': 'tuple', 'elems': [i5, i5]},
+        {'t': 'tuple', 'elems': [{'t': 'enum', 'members': [['IDLE', 100], ['BUSY', 300], ['ERROR', 400]]},
+                                 {'t': 'string', 'min': 0, 'max': gen.UNLIMITED, 'utf8': False}]},
+        {'t': 'struct', 'members': [['limits', {'t': 'tuple', 'elems': [db, db]}],
+                                    ['text', {'t': 'string', 'min': 0, 'max': 2000, 'utf8': False}]], 'optional': ['text'], 'client': False},
     ]
 
 
@@ -1013,21 +1073,21 @@ def _sub_fmts(fmts, i):
 
 
 def sub_cases(case):
-    tree, v, fmts, units = case['tree'], case['v'], case.get('fmts', {}), case.get('units') or {}
+    tree, v, fmts, units, cls = case['tree'], case['v'], case.get('fmts', {}), case.get('units') or {}, case.get('cls') or {}
     t = tree['t']
     out = []
     if t == 'array' and isinstance(v, dict) and 't' in v:
         for x in v['t']:
-            out.append({'tree': tree['elem'], 'v': x, 'fmts': _sub_fmts(fmts, 0), 'units': _sub_fmts(units, 0)})
+            out.append({'tree': tree['elem'], 'v': x, 'fmts': _sub_fmts(fmts, 0), 'units': _sub_fmts(units, 0), 'cls': _sub_fmts(cls, 0)})
     elif t == 'tuple' and isinstance(v, dict) and 't' in v:
         for i, (e, x) in enumerate(zip(tree['elems'], v['t'])):
-            out.append({'tree': e, 'v': x, 'fmts': _sub_fmts(fmts, i), 'units': _sub_fmts(units, i)})
+            out.append({'tree': e, 'v': x, 'fmts': _sub_fmts(fmts, i), 'units': _sub_fmts(units, i), 'cls': _sub_fmts(cls, i)})
     elif t == 'struct' and isinstance(v, dict) and 'd' in v:
         names = [k for k, _ in tree['members']]
         md = dict((k, m) for k, m in tree['members'])
         for k, x in v['d']:
             if k in md:
-                out.append({'tree': md[k], 'v': x, 'fmts': _sub_fmts(fmts, names.index(k)), 'units': _sub_fmts(units, names.index(k))})
+                out.append({'tree': md[k], 'v': x, 'fmts': _sub_fmts(fmts, names.index(k)), 'units': _sub_fmts(units, names.index(k)), 'cls': _sub_fmts(cls, names.index(k))})
     return out
 
 
@@ -1136,7 +1196,7 @@ def signature(clause, case):
 
 
 def describe(case, impl):
-    dt = build_dt(case['tree'], case.get('fmts', {}), case.get('units'))
+    dt = build_dt(case['tree'], case.get('fmts', {}), case.get('units'), case.get('cls'))
     v = dtcodec.json_to_py(case['v'])
 
     def short(a):
@@ -1209,6 +1269,9 @@ def run(ctx):
             res.count('tree.contains=' + k)
         fmts = gen_fmts(rng, tree)
         units = gen_units(rng, tree)
+        cls = gen_variants(rng, tree)
+        for c in cls.values():
+            res.count('tree.class-variant=' + c)
         res.count('tree.float-leaf-with-unit', len(units))
         for f in fmts.values():
             res.count('fmtstr=' + (f if f == '%g' else '%.<n>' + f[-1]))
@@ -1225,7 +1288,7 @@ def run(ctx):
         for v in values:
             if not dtcodec.encodable(v):
                 continue
-            cases.append(({'tree': tree, 'v': dtcodec.py_to_json(v), 'fmts': fmts, 'units': units}, origin))
+            cases.append(({'tree': tree, 'v': dtcodec.py_to_json(v), 'fmts': fmts, 'units': units, 'cls': cls}, origin))
 
     CH = 10000
     shrunk = 0
@@ -1327,7 +1390,7 @@ def replay(ctx, rp):
     case = rp['case']
     req, impl, libfail = eval_case(case)
     ans = batch_nl(ctx.driver, [req])[0]
-    dt = build_dt(case['tree'], case.get('fmts', {}), case.get('units'))
+    dt = build_dt(case['tree'], case.get('fmts', {}), case.get('units'), case.get('cls'))
     v = dtcodec.json_to_py(case['v'])
     print('datatype :', repr(dt))
     print('value    :', repr(v))
